@@ -105,6 +105,41 @@ def run(ctx):
         if impl.ops_of(lst) != Ps:
             ctx.fail('PauliList.rotate_by', 'four rotations do not restore the input', dict(G=Gop, Ps=Ps, got=impl.ops_of(lst)))
         ctx.case(('seq', Gop, tuple(Ps)), True)
+    # objects whose tables are views: strided and reversed slices, Fortran order, the transposed view returned by inverse()
+    for _ in range(ctx.budget(120, 1200)):
+        n = rng.choice([1, 2, 3, 4])
+        Gop = G.rand_herm(rng, n, nonid=True)
+        Ps = [G.rand_op(rng, n) for _ in range(rng.randrange(2, 7))]
+        kind = rng.choice(['step2', 'reversed', 'fortran', 'map-inverse', 'map-rows', 'state-rows', 'mask-view'])
+        try:
+            if kind == 'step2':
+                obj = impl.plist(Ps)[::2]; vals = Ps[::2]
+            elif kind == 'reversed':
+                obj = impl.plist(Ps)[::-1]; vals = Ps[::-1]
+            elif kind == 'fortran':
+                base = impl.plist(Ps)
+                obj = pc.PauliList(np.asfortranarray(base.gs), base.ps.copy()); vals = Ps
+            elif kind == 'map-inverse':
+                M = G.rand_map_ops(rng, n)
+                obj = impl.cmap(M).inverse(); vals = impl.ops_of(obj)
+            elif kind == 'map-rows':
+                M = G.rand_map_ops(rng, n)
+                obj = impl.cmap(M)[::2]; vals = [(x[0], x[1] % 4) for x in M[::2]]
+            elif kind == 'state-rows':
+                rows, r = G.rand_tableau(rng, n)
+                obj = impl.state(rows, r).stabilizers; vals = [(x[0], x[1] % 4) for x in rows[r:n]]
+            else:
+                obj = impl.plist(Ps)[np.array([i % 2 == 0 for i in range(len(Ps))])]; vals = Ps[::2]
+            obj.rotate_by(impl.pauli(Gop))
+            got = impl.ops_of(obj)
+        except Exception as e:
+            ctx.fail('PauliList.rotate_by', 'implementation raised %r on a %s view' % (e, kind), dict(G=Gop, Ps=Ps, kind=kind)); continue
+        ctx.count('view:' + kind)
+        want = [G.rotate_op(Gop, P) for P in vals]
+        ctx.case(('view', kind, Gop, tuple(vals)), any(O.anticommute(Gop, P) for P in vals), sample=dict(op='rotate_by on a ' + kind + ' view', G=Gop))
+        if got != want:
+            ctx.fail('PauliList.rotate_by', 'rotating a list whose table is a %s view does not give U^dagger P U for every entry' % kind,
+                     dict(G=Gop, vals=vals, kind=kind, got=got, want=want))
     # kernel called directly (in place on arrays), Pauli, polynomial, state, rotation map
     for _ in range(ctx.budget(80, 800)):
         n = rng.choice([1, 2, 3, 4, 6])
